@@ -426,12 +426,20 @@ Proof.
   intros Hflag. vm_compute in Hflag.
   first [ discriminate Hflag | repeat split; vm_compute; reflexivity ].
 Qed.
-Lemma refuted_loud :
-  (wf_net N_coupling_shape = true /\ g_coupling_shape N_coupling_shape = false /\
-   pop_run unit_poly N_coupling_shape [st1 [mkq 1 2; mkq 1 1] [0; 0]; st1 (mkq 1 1 :: nil) (0 :: nil)] (mkq 1 4) 2 = None) /\
-  (wf_net N_delay_1x1 = true /\ g_delay_shape N_delay_1x1 = false /\
-   pop_run unit_poly N_delay_1x1 [st1 (mkq 1 2 :: nil) (0 :: nil); st1 (mkq 1 1 :: nil) (0 :: nil)] (mkq 1 4) 2 = None).
-Proof. repeat split; vm_compute; reflexivity. Qed.
+Lemma coupling_shape_before_fix : fixed_F5 = false ->
+  wf_net N_coupling_shape = true /\ g_coupling_shape N_coupling_shape = false /\
+  pop_run unit_poly N_coupling_shape [st1 [mkq 1 2; mkq 1 1] [0; 0]; st1 (mkq 1 1 :: nil) (0 :: nil)] (mkq 1 4) 2 = None.
+Proof.
+  intros Hflag. vm_compute in Hflag.
+  first [ discriminate Hflag | repeat split; vm_compute; reflexivity ].
+Qed.
+Lemma delay_1x1_before_fix : fixed_F7 = false ->
+  wf_net N_delay_1x1 = true /\ g_delay_shape N_delay_1x1 = false /\
+  pop_run unit_poly N_delay_1x1 [st1 (mkq 1 2 :: nil) (0 :: nil); st1 (mkq 1 1 :: nil) (0 :: nil)] (mkq 1 4) 2 = None.
+Proof.
+  intros Hflag. vm_compute in Hflag.
+  first [ discriminate Hflag | repeat split; vm_compute; reflexivity ].
+Qed.
 
 (* non-vacuity: a guard-satisfying network with a non-square signed matrix, a scalar weight onto the same target, a
    coupled matrix and per-unit parameters; Impl and Spec agree on a 3-row trajectory and the values move *)
@@ -544,32 +552,146 @@ Proof.
   destruct (H1 p Hp) as [A1 A2]. destruct (H2 p Hp) as [B1 B2]. unfold vec in *. rewrite A1, A2, B1, B2. lia.
 Qed.
 
-(* guard of the trajectory theorem: per-connection guards, no loud class, no dynamic coupling (edge states) *)
-Definition no_dyn (N : popnet) : bool := forallb (fun c => negb (is_dyn (ccpl c))) (conns N).
-Definition no_spread (N : popnet) : bool := forallb (fun c => match cspread c with None => true | Some _ => false end) (conns N).
-Definition traj_guard (N : popnet) : bool := forallb (conn_guard N) (conns N) && negb (loud N) && (no_dyn N && no_spread N).
+(* ------------------------------------------------------------------ shape invariant of the edge states *)
+Definition rectP (n m : nat) (V : mat) : Prop := length V = n /\ forall i, (i < n)%nat -> length (nth i V []) = m.
+(* a dynamic coupling keeps one state per (target, source) pair; a gamma-kernel delay keeps chain_order stages per source unit *)
+Definition edge_ok (N : popnet) (c : conn) (V : mat) : Prop :=
+  (is_dyn (ccpl c) = true -> rectP (size_of N (ctgt c)) (size_of N (csrc c)) V) /\
+  (is_dyn (ccpl c) = false -> forall ds, cspread c = Some ds -> rectP (chain_order ds) (size_of N (csrc c)) V).
+Definition good_edges (N : popnet) (Vs : list mat) : Prop :=
+  length Vs = length (conns N) /\ Forall (fun cV => edge_ok N (fst cV) (snd cV)) (combine (conns N) Vs).
 
-Lemma conn_ok_all N h : wf_net N = true -> forallb (conn_guard N) (conns N) = true -> no_dyn N = true -> no_spread N = true -> good_hist N h ->
-  Forall (conn_ok N h) (combine (conns N) (snd (cur h) ++ repeat [] (length (conns N)))).
+Lemma combine_app_r {A B} : forall (a : list A) (b c : list B), length b = length a -> combine a (b ++ c) = combine a b.
 Proof.
-  intros Hwf Hg Hnd Hns Hh. apply Forall_forall. intros [c V] Hin. apply in_combine_l in Hin.
-  unfold no_spread in Hns. rewrite forallb_forall in Hns. specialize (Hns c Hin).
-  unfold wf_net in Hwf. apply andb_true_iff in Hwf. destruct Hwf as [_ Hwc].
-  rewrite forallb_forall in Hwc, Hg. unfold no_dyn in Hnd. rewrite forallb_forall in Hnd.
-  specialize (Hwc c Hin). specialize (Hg c Hin). specialize (Hnd c Hin).
-  unfold conn_ok. cbn [fst snd]. repeat split; try assumption.
-  - unfold wf_conn in Hwc. apply andb_true_iff in Hwc. destruct Hwc as [Hwc _]. apply andb_true_iff in Hwc.
-    destruct Hwc as [Hs _]. apply Nat.ltb_lt in Hs. unfold src_vec. destruct (cspread c); [discriminate Hns|]. now apply delayed_length.
-  - unfold wf_conn in Hwc. apply andb_true_iff in Hwc. destruct Hwc as [Hwc _]. apply andb_true_iff in Hwc.
-    destruct Hwc as [_ Ht]. apply Nat.ltb_lt in Ht. unfold post_of. now apply delayed_length.
-  - intros Hd. rewrite Hd in Hnd. discriminate Hnd.
+  induction a as [|x a IH]; intros b c H; [reflexivity|]. destruct b as [|y b]; cbn [length] in H; [lia|].
+  cbn [app combine]. f_equal. apply IH. lia.
 Qed.
 
-(* one evaluation of the right-hand side: population circuit = explicit network, as whole states *)
-Lemma deriv_eq U N h : wf_net N = true -> forallb (conn_guard N) (conns N) = true -> no_dyn N = true -> no_spread N = true -> good_hist N h ->
+Lemma rectP_full n m v : rectP n m (full n m v).
+Proof.
+  unfold full. split; [apply repeat_length|]. intros i Hi. rewrite nth_repeat_lt by exact Hi. apply repeat_length.
+Qed.
+
+Lemma rectP_zipw_vaxpy dt n m V D : rectP n m V -> rectP n m D -> rectP n m (zipw (vaxpy dt) V D).
+Proof.
+  intros [L1 R1] [L2 R2]. unfold rectP, vaxpy, mat, vec in *. split; [rewrite zipw_length; lia|]. intros i Hi.
+  rewrite (nth_zipw _ _ _ i [] [] []) by lia. rewrite zipw_length. rewrite R1, R2 by exact Hi. lia.
+Qed.
+
+Lemma chain_order_pos ds : (1 <= chain_order ds)%nat.
+Proof. unfold chain_order. apply Nat.le_max_l. Qed.
+
+Lemma last_is_nth {A} : forall (l : list A) d, last l d = nth (length l - 1) l d.
+Proof.
+  induction l as [|x [|y l] IH]; intros d; try reflexivity.
+  change (last (x :: y :: l) d) with (last (y :: l) d). rewrite IH.
+  cbn [length]. replace (S (S (length l)) - 1)%nat with (S (S (length l) - 1)) by lia. reflexivity.
+Qed.
+
+Lemma src_vec_length N h c V : good_hist N h -> (csrc c < length (pops N))%nat -> edge_ok N c V ->
+  length (src_vec N h c V) = size_of N (csrc c).
+Proof.
+  intros Hh Hs [_ Hc]. unfold src_vec. destruct (cspread c) as [ds|] eqn:E; [|now apply delayed_length].
+  destruct (is_dyn (ccpl c)) eqn:Ed; [now apply delayed_length|].
+  destruct (Hc eq_refl ds eq_refl) as [HL HR]. pose proof (chain_order_pos ds) as Hpos.
+  rewrite last_is_nth. unfold mat, vec in *.
+  rewrite (nth_indep V (repeat (Q2Qc 0) (size_of N (csrc c))) []) by lia. apply HR. lia.
+Qed.
+
+Lemma chain_deriv_rect N h c V ds : good_hist N h -> (csrc c < length (pops N))%nat -> cspread c = Some ds ->
+  rectP (chain_order ds) (size_of N (csrc c)) V -> rectP (chain_order ds) (size_of N (csrc c)) (chain_deriv N h c V).
+Proof.
+  intros Hh Hs E [HL HR]. unfold chain_deriv. rewrite E. cbv zeta. unfold rectP, mat, vec in *.
+  split; [rewrite zipw_length; cbn [length]; lia|]. intros i Hi.
+  rewrite (nth_zipw _ _ _ i [] [] []) by (cbn [length]; lia). rewrite zipw_length.
+  rewrite (HR i Hi). destruct i as [|i]; cbn [nth].
+  - rewrite delayed_length by assumption. lia.
+  - rewrite HR by lia. lia.
+Qed.
+
+Lemma exp_edge_deriv_ok N h c V : good_hist N h -> (csrc c < length (pops N))%nat -> edge_ok N c V ->
+  edge_ok N c (exp_edge_deriv N h c V).
+Proof.
+  intros Hh Hs [_ Hc]. unfold edge_ok, exp_edge_deriv. destruct (ccpl c) as [|b f|b g] eqn:Ek; cbn [is_dyn] in *.
+  - split; [discriminate|]. intros _ ds E. apply chain_deriv_rect; try assumption. now apply Hc.
+  - split; [discriminate|]. intros _ ds E. apply chain_deriv_rect; try assumption. now apply Hc.
+  - split; [|discriminate]. intros _. cbv zeta. unfold rectP, mat, vec. split; [now rewrite map_length, seq_length|].
+    intros i Hi. rewrite (nth_map_seq _ _ i [] Hi). now rewrite map_length, seq_length.
+Qed.
+
+Lemma edge_step_ok N dt c V D : edge_ok N c V -> edge_ok N c D -> edge_ok N c (zipw (vaxpy dt) V D).
+Proof.
+  intros [A1 A2] [B1 B2]. split.
+  - intros Hd. apply rectP_zipw_vaxpy; auto.
+  - intros Hd ds E. apply rectP_zipw_vaxpy; eauto.
+Qed.
+
+(* the broadcast form of the pair states = the per-pair form, as whole matrices *)
+Lemma map3m_eq g s t V nt ns : length s = ns -> length t = nt -> rectP nt ns V ->
+  map3m g (broadcast_pre s nt) (broadcast_post t (length s)) V =
+  map (fun i => map (fun j => g (nth j s 0) (nth i t 0) (nth j (nth i V []) 0)) (seq 0 ns)) (seq 0 nt).
+Proof.
+  intros Hs Ht [HL HR].
+  assert (Hlen : length (map3m g (broadcast_pre s nt) (broadcast_post t (length s)) V) = nt).
+  { unfold map3m, broadcast_pre, broadcast_post, mat, vec in *. rewrite !zipw_length, repeat_length, map_length. lia. }
+  assert (Hrow : forall i, (i < nt)%nat -> length (nth i (map3m g (broadcast_pre s nt) (broadcast_post t (length s)) V) []) = ns).
+  { intros i Hi. unfold map3m, broadcast_pre, broadcast_post, mat, vec in *.
+    rewrite (nth_zipw _ _ _ i [] [] []) by (rewrite ?zipw_length, ?repeat_length, ?map_length; lia).
+    rewrite (nth_zipw _ _ _ i [] [] []) by (rewrite ?repeat_length, ?map_length; lia).
+    rewrite nth_repeat_lt by lia. rewrite (nth_map_lt _ _ _ (Q2Qc 0)) by lia.
+    rewrite !zipw_length, repeat_length. rewrite (HR i Hi). lia. }
+  unfold mat, vec in *.
+  apply (nth_ext _ _ [] []); [rewrite Hlen, map_length, seq_length; reflexivity|].
+  intros i Hi. rewrite Hlen in Hi. rewrite (nth_map_seq _ _ i [] Hi).
+  apply (nth_ext _ _ 0 0); [rewrite (Hrow i Hi), map_length, seq_length; reflexivity|].
+  intros j Hj. rewrite (Hrow i Hi) in Hj. rewrite (nth_map_seq _ _ j 0 Hj).
+  apply dyn_state_per_pair; try lia. rewrite (HR i Hi). lia.
+Qed.
+
+Lemma wf_conn_bounds N c : wf_conn N c = true -> (csrc c < length (pops N))%nat /\ (ctgt c < length (pops N))%nat.
+Proof.
+  unfold wf_conn. intros H. apply andb_true_iff in H. destruct H as [H _]. apply andb_true_iff in H.
+  destruct H as [H1 H2]. apply Nat.ltb_lt in H1. apply Nat.ltb_lt in H2. split; assumption.
+Qed.
+
+Lemma edge_deriv_eq N h c V : wf_conn N c = true -> conn_guard N c = true -> good_hist N h -> edge_ok N c V ->
+  pop_edge_deriv N h c V = exp_edge_deriv N h c V.
+Proof.
+  intros Hwf Hg Hh Hok. destruct (wf_conn_bounds N c Hwf) as [Hs Ht].
+  pose proof (src_vec_length N h c V Hh Hs Hok) as Hlen.
+  unfold conn_guard in Hg. apply andb_true_iff in Hg. destruct Hg as [Hcol Hg]. apply negb_true_iff in Hcol.
+  unfold wf_conn in Hwf. apply andb_true_iff in Hwf. destruct Hwf as [_ Hrect].
+  unfold pop_edge_deriv, exp_edge_deriv, pop_source. rewrite Hcol. destruct Hok as [Hd _].
+  destruct (cw c) as [W|w]; destruct (ccpl c) as [|b f|b g]; try reflexivity; try discriminate Hg.
+  destruct (rect_rows _ _ _ Hrect) as [HL _]. cbv zeta. rewrite HL.
+  apply map3m_eq; [exact Hlen| |now apply Hd]. unfold post_of. now apply delayed_length.
+Qed.
+
+(* guard of the trajectory theorem: per-connection guards, none of the loud classes; a gamma-kernel delay together with a
+   dynamic coupling template is not modelled and therefore excluded *)
+Definition spread_modelled (N : popnet) : bool :=
+  forallb (fun c => negb (is_dyn (ccpl c) && match cspread c with Some _ => true | None => false end)) (conns N).
+Definition traj_guard (N : popnet) : bool := forallb (conn_guard N) (conns N) && negb (loud N) && spread_modelled N.
+
+Lemma conn_ok_all N h : wf_net N = true -> forallb (conn_guard N) (conns N) = true -> good_hist N h -> good_edges N (snd (cur h)) ->
+  Forall (conn_ok N h) (combine (conns N) (snd (cur h) ++ repeat [] (length (conns N)))).
+Proof.
+  intros Hwf Hg Hh [HLe He]. rewrite combine_app_r by exact HLe. apply Forall_forall. intros [c V] Hin.
+  rewrite Forall_forall in He. specialize (He _ Hin). cbn [fst snd] in He. apply in_combine_l in Hin.
+  unfold wf_net in Hwf. apply andb_true_iff in Hwf. destruct Hwf as [_ Hwc].
+  rewrite forallb_forall in Hwc, Hg. specialize (Hwc c Hin). specialize (Hg c Hin).
+  destruct (wf_conn_bounds N c Hwc) as [Hs Ht].
+  unfold conn_ok. cbn [fst snd]. repeat split; try assumption.
+  - now apply src_vec_length.
+  - unfold post_of. now apply delayed_length.
+  - intros Hd. destruct He as [He _]. now destruct (He Hd).
+Qed.
+
+(* one evaluation of the right-hand side: population circuit = explicit network, as whole states (edge states included) *)
+Lemma deriv_eq U N h : wf_net N = true -> forallb (conn_guard N) (conns N) = true -> good_hist N h -> good_edges N (snd (cur h)) ->
   pop_deriv U N h = exp_deriv 0 U N h.
 Proof.
-  intros Hwf Hg Hnd Hns Hh. pose proof (conn_ok_all N h Hwf Hg Hnd Hns Hh) as Hok.
+  intros Hwf Hg Hh Hge. pose proof (conn_ok_all N h Hwf Hg Hh Hge) as Hok.
   unfold pop_deriv, exp_deriv. f_equal.
   - apply map_ext_in. intros p Hp. apply in_seq in Hp. cbv zeta.
     assert (E : map (fun i => U (map (fun v => nth i v 0) (pop_pars (pop_of N p))) (nth i (sx (nth p (fst (cur h)) dps)) 0)
@@ -582,26 +704,55 @@ Proof.
       rewrite pop_pars_unit by lia.
       rewrite !pop_input_is_exp_input by (try exact Hok; unfold size_of; lia). reflexivity. }
     rewrite E. reflexivity.
-  - apply map_ext_in. intros [c V] Hin. apply in_combine_l in Hin. cbn [fst snd].
-    unfold no_dyn in Hnd. rewrite forallb_forall in Hnd. specialize (Hnd c Hin).
-    unfold pop_edge_deriv, exp_edge_deriv. destruct (cw c), (ccpl c); try reflexivity; discriminate Hnd.
+  - destruct Hge as [HLe He]. rewrite combine_app_r by exact HLe.
+    apply map_ext_in. intros [c V] Hin. cbn [fst snd].
+    rewrite Forall_forall in He. specialize (He _ Hin). cbn [fst snd] in He. apply in_combine_l in Hin.
+    unfold wf_net in Hwf. apply andb_true_iff in Hwf. destruct Hwf as [_ Hwc].
+    rewrite forallb_forall in Hwc, Hg. now apply edge_deriv_eq; auto.
 Qed.
 
 Lemma deriv_good U N h : good_units N (fst (exp_deriv 0 U N h)).
 Proof. unfold exp_deriv. cbn [fst]. apply (units_of_map_good N). Qed.
 
-Lemma run_hist_eq U N dt init k :
-  wf_net N = true -> forallb (conn_guard N) (conns N) = true -> no_dyn N = true -> no_spread N = true -> good_units N (fst init) ->
-  run_hist (pop_deriv U N) dt init k = run_hist (exp_deriv 0 U N) dt init k /\
-  good_hist N (run_hist (exp_deriv 0 U N) dt init k) /\ good_units N (fst (cur (run_hist (exp_deriv 0 U N) dt init k))).
+(* one Euler step keeps the shapes of the edge states *)
+Lemma edges_step N (G : mat -> mat -> mat) (F : conn * mat -> mat) : forall cs Vs, length Vs = length cs ->
+  (forall c V, In c cs -> edge_ok N c V -> edge_ok N c (G V (F (c, V)))) ->
+  Forall (fun cV => edge_ok N (fst cV) (snd cV)) (combine cs Vs) ->
+  length (zipw G Vs (map F (combine cs Vs))) = length cs /\
+  Forall (fun cV => edge_ok N (fst cV) (snd cV)) (combine cs (zipw G Vs (map F (combine cs Vs)))).
 Proof.
-  intros Hwf Hg Hnd Hns Hi. induction k as [|k (IH1 & IH2 & IH3)]; cbn [run_hist].
-  - split; [reflexivity|]. split; [constructor; [exact Hi|constructor]|exact Hi].
-  - rewrite IH1. rewrite (deriv_eq U N _ Hwf Hg Hnd Hns IH2).
-    assert (Hnew : good_units N (fst (euler dt (cur (run_hist (exp_deriv 0 U N) dt init k))
-                                          (exp_deriv 0 U N (run_hist (exp_deriv 0 U N) dt init k))))).
-    { apply euler_good; [exact IH3|apply deriv_good]. }
-    split; [reflexivity|]. split; [constructor; assumption|exact Hnew].
+  induction cs as [|c cs IH]; intros Vs HL Hstep Hall.
+  - destruct Vs; [split; [reflexivity|constructor]|cbn in HL; lia].
+  - destruct Vs as [|V Vs]; cbn [length] in HL; [lia|]. cbn [combine map zipw length].
+    inversion Hall as [|x l Hx Hl]; subst. cbn [fst snd] in Hx.
+    destruct (IH Vs) as [IL IF]; [lia|intros c' V' Hin; apply Hstep; now right|exact Hl|].
+    split; [now rewrite IL|]. constructor; [cbn [fst snd]; apply Hstep; [now left|exact Hx]|exact IF].
+Qed.
+
+Lemma euler_edges_good U N dt h : wf_net N = true -> good_hist N h -> good_edges N (snd (cur h)) ->
+  good_edges N (snd (euler dt (cur h) (exp_deriv 0 U N h))).
+Proof.
+  intros Hwf Hh [HLe He]. unfold euler, exp_deriv. cbn [snd]. rewrite combine_app_r by exact HLe.
+  unfold good_edges. apply (edges_step N (zipw (vaxpy dt)) (fun cV => exp_edge_deriv N h (fst cV) (snd cV))); try assumption.
+  intros c V Hin Hok. cbn [fst snd]. apply edge_step_ok; [exact Hok|].
+  unfold wf_net in Hwf. apply andb_true_iff in Hwf. destruct Hwf as [_ Hwc]. rewrite forallb_forall in Hwc.
+  destruct (wf_conn_bounds N c (Hwc c Hin)) as [Hs _]. now apply exp_edge_deriv_ok.
+Qed.
+
+Lemma run_hist_eq U N dt init k :
+  wf_net N = true -> forallb (conn_guard N) (conns N) = true -> good_units N (fst init) -> good_edges N (snd init) ->
+  run_hist (pop_deriv U N) dt init k = run_hist (exp_deriv 0 U N) dt init k /\
+  good_hist N (run_hist (exp_deriv 0 U N) dt init k) /\
+  good_units N (fst (cur (run_hist (exp_deriv 0 U N) dt init k))) /\
+  good_edges N (snd (cur (run_hist (exp_deriv 0 U N) dt init k))).
+Proof.
+  intros Hwf Hg Hi He. induction k as [|k (IH1 & IH2 & IH3 & IH4)]; cbn [run_hist].
+  - split; [reflexivity|]. split; [constructor; [exact Hi|constructor]|]. split; [exact Hi|exact He].
+  - rewrite IH1. rewrite (deriv_eq U N _ Hwf Hg IH2 IH4).
+    set (h := run_hist (exp_deriv 0 U N) dt init k) in *.
+    assert (Hnew : good_units N (fst (euler dt (cur h) (exp_deriv 0 U N h)))) by (apply euler_good; [exact IH3|apply deriv_good]).
+    split; [reflexivity|]. split; [constructor; assumption|]. split; [exact Hnew|].
+    cbn [cur hd]. now apply euler_edges_good.
 Qed.
 
 Lemma norm_id N : forallb (conn_guard N) (conns N) = true -> norm N = N.
@@ -613,11 +764,37 @@ Proof.
   cbn [is_plain negb]. now rewrite andb_false_r.
 Qed.
 
-Lemma init_edges_no_dyn N v0 : no_dyn N = true -> init_edges N v0 = init_edges_exp N v0.
+Lemma map_const_repeat (r : vec) (v : Qc) : map (fun _ => v) r = repeat v (length r).
+Proof. induction r as [|a r IH]; [reflexivity|]. cbn [map length repeat]. now rewrite IH. Qed.
+
+Lemma map_const_full W m (v : Qc) : forallb (fun r : vec => (length r =? m)%nat) W = true ->
+  map (fun r : vec => map (fun _ => v) r) W = repeat (repeat v m) (length W).
 Proof.
-  intros Hnd. unfold init_edges, init_edges_exp. apply map_ext_in. intros c Hin.
-  unfold no_dyn in Hnd. rewrite forallb_forall in Hnd. specialize (Hnd c Hin).
-  destruct (cw c), (ccpl c); try reflexivity; discriminate Hnd.
+  induction W as [|r W IH]; intros H; [reflexivity|]. cbn [forallb] in H. apply andb_true_iff in H. destruct H as [Hr HW].
+  apply Nat.eqb_eq in Hr. cbn [map length repeat]. rewrite map_const_repeat, Hr, IH by exact HW. reflexivity.
+Qed.
+
+Lemma init_edges_eq N v0 : wf_net N = true -> forallb (conn_guard N) (conns N) = true -> init_edges N v0 = init_edges_exp N v0.
+Proof.
+  intros Hwf Hg. unfold init_edges, init_edges_exp. apply map_ext_in. intros c Hin.
+  unfold wf_net in Hwf. apply andb_true_iff in Hwf. destruct Hwf as [_ Hwc]. rewrite forallb_forall in Hwc, Hg.
+  specialize (Hwc c Hin). specialize (Hg c Hin).
+  unfold conn_guard in Hg. apply andb_true_iff in Hg. destruct Hg as [_ Hg].
+  unfold wf_conn in Hwc. apply andb_true_iff in Hwc. destruct Hwc as [_ Hrect].
+  destruct (cw c) as [W|w]; destruct (ccpl c); cbn [is_dyn]; try reflexivity; try discriminate Hg.
+  unfold rect in Hrect. apply andb_true_iff in Hrect. destruct Hrect as [HL HR]. apply Nat.eqb_eq in HL.
+  unfold full. rewrite <- HL. exact (map_const_full W (size_of N (csrc c)) v0 HR).
+Qed.
+
+Lemma Forall_combine_map {A B} (P : A * B -> Prop) (f : A -> B) : forall l, (forall x, In x l -> P (x, f x)) -> Forall P (combine l (map f l)).
+Proof. induction l as [|x l IH]; intros H; cbn [map combine]; constructor; [apply H; now left|apply IH; intros y Hy; apply H; now right]. Qed.
+
+Lemma init_edges_good N v0 : good_edges N (init_edges_exp N v0).
+Proof.
+  unfold good_edges, init_edges_exp. split; [apply map_length|]. apply Forall_combine_map. intros c _. cbn [fst snd].
+  unfold edge_ok. destruct (is_dyn (ccpl c)) eqn:Ed; split; try discriminate; intros _.
+  - apply rectP_full.
+  - intros ds E. unfold init_chain. rewrite E. apply (rectP_full (chain_order ds) (size_of N (csrc c)) 0).
 Qed.
 
 (* what `run` returns: for ANY number of rows the population circuit produces the trajectory of the explicit network *)
@@ -625,11 +802,23 @@ Theorem pop_run_is_exp_run U N units dt rows :
   wf_net N = true -> wf_units N units = true -> traj_guard N = true ->
   pop_run U N units dt rows = Some (exp_run 0 U N units dt rows).
 Proof.
-  intros Hwf Hu Hg. unfold traj_guard in Hg. apply andb_true_iff in Hg. destruct Hg as [Hg Hnd].
-  apply andb_true_iff in Hnd. destruct Hnd as [Hnd Hns].
+  intros Hwf Hu Hg. unfold traj_guard in Hg. apply andb_true_iff in Hg. destruct Hg as [Hg _].
   apply andb_true_iff in Hg. destruct Hg as [Hg Hl]. apply negb_true_iff in Hl.
   unfold pop_run, exp_run. rewrite (norm_id N Hg). cbv zeta. rewrite Hl. f_equal.
-  rewrite (init_edges_no_dyn N 0 Hnd). unfold traj. destruct rows as [|k]; [reflexivity|].
-  destruct (run_hist_eq U N dt (units, init_edges_exp N 0) k Hwf Hg Hnd Hns (wf_units_good N units Hu)) as [E _].
+  rewrite (init_edges_eq N 0 Hwf Hg). unfold traj. destruct rows as [|k]; [reflexivity|].
+  destruct (run_hist_eq U N dt (units, init_edges_exp N 0) k Hwf Hg (wf_units_good N units Hu) (init_edges_good N 0)) as [E _].
   now rewrite E.
 Qed.
+
+(* non-vacuity of the trajectory theorem on the two classes with edge states: a dynamic coupling template (cpl_lpd) and a
+   gamma-kernel delayed connection (d = 1, s = 1/2: order 4, rate 4), both onto one target variable *)
+Definition N_example_dyn : popnet :=
+  {| pops := pops N_example;
+     conns := [ mkconn 0 0 1 0 (WMat [[mkq 1 1; mkq (-2) 1; mkq 1 2]; [0; mkq 3 4; mkq (-1) 1]]) cpl_lpd 1 0;
+                {| csrc := 1; csv := 1; ctgt := 1; ctv := 0; cw := WMat [[mkq 1 2; mkq 1 1]; [mkq (-1) 1; 0]]; ccpl := CPlain;
+                   cpv := 0; cdelay := 4; cspread := Some (mkq 1 1, mkq 1 2) |} ] |}.
+Lemma nonvacuous_dyn :
+  wf_net N_example_dyn = true /\ wf_units N_example_dyn units_example = true /\ traj_guard N_example_dyn = true /\
+  chain_order (mkq 1 1, mkq 1 2) = 4%nat /\
+  list_eqb pstate_eqb (nth 3 (exp_run 0 unit_poly N_example_dyn units_example (mkq 1 4) 4) []) units_example = false.
+Proof. repeat split; vm_compute; reflexivity. Qed.
